@@ -21,6 +21,7 @@ type LeaseScenario struct {
 	Holds       float64 // kept: hold duration in leases
 	DiePhase    float64 // lapse: death at (1+DiePhase) renewal periods after acquisition; <0: pseudo thread (any point)
 	SameLocker  bool    // diesout: second tenure on the same Locker
+	TwoWaiters  bool    // lapse: a first waiter that gives up before the lease lapses, a second one that stays
 }
 
 func (sc *LeaseScenario) String() string {
@@ -33,7 +34,7 @@ func (sc *LeaseScenario) String() string {
 		if sc.DiePhase < 0 {
 			return fmt.Sprintf("lapse lease=%v death=any-point", sc.Lease)
 		}
-		return fmt.Sprintf("lapse lease=%v death-phase=%.2f", sc.Lease, sc.DiePhase)
+		return fmt.Sprintf("lapse lease=%v death-phase=%.2f two-waiters=%v", sc.Lease, sc.DiePhase, sc.TwoWaiters)
 	}
 	return fmt.Sprintf("diesout lease=%v same-locker=%v renewal-faults=%v", sc.Lease, sc.SameLocker, sc.RenewFaults)
 }
@@ -146,7 +147,23 @@ func (sc *LeaseScenario) Build(obs *LeaseObs) func() {
 					vsched.Sleep(L / 4)
 				}
 			})
-			vsched.WaitFor("all", func() bool { return hdone && cdone && pdone })
+			// a goroutine of the holder's own process tries the SAME Locker object now and then: it must be refused
+			// and must not disturb the tenure in any way
+			ldone := false
+			vsched.GoNamed("local-prober", func() {
+				defer func() { ldone = true }()
+				vsched.Sleep(L / 6)
+				for !unlocked && obs.Problem == "" {
+					if holding && lkH.TryLock(bg) {
+						if holding {
+							obs.fail("kept:two-holders local TryLock", "TryLock on the holder's own Locker object succeeded at +%v while the lock is held", now())
+						}
+						lkH.Unlock()
+					}
+					vsched.Sleep(L / 3)
+				}
+			})
+			vsched.WaitFor("all", func() bool { return hdone && cdone && pdone && ldone })
 			obs.Summary = fmt.Sprintf("renewals=%d", strings.Count(strings.Join(calls, ";"), "holder.Cas -> <nil>"))
 		case "handover":
 			// a waiter that was blocked for a long time takes over and must itself keep the lease:
@@ -244,6 +261,27 @@ func (sc *LeaseScenario) Build(obs *LeaseObs) func() {
 				}
 				lkC.Unlock()
 			})
+			if sc.TwoWaiters {
+				// a first waiter (own provider) that starts before the contender and gives up a quarter lease after the
+				// death: the remaining waiter must still notice that the record expired
+				_, pW := mk("impatient")
+				lkW := pW.NewLocker("L")
+				wctx, wcancel := context.WithCancel(bg)
+				vsched.GoNamed("impatient", func() {
+					vsched.WaitFor("holder-locked", func() bool { return hlocked })
+					if err := lkW.LockWithCtx(wctx); err == nil {
+						if !dead {
+							obs.fail("lapse:two-holders", "the impatient waiter acquired while the holder is alive")
+						}
+						lkW.Unlock()
+					}
+				})
+				vsched.GoNamed("impatience", func() {
+					vsched.WaitFor("death", func() bool { return dead || cdone })
+					vsched.Sleep(L / 4)
+					wcancel()
+				})
+			}
 			// watchdog: the contender must hold the lock within lease + one renewal period after the death
 			vsched.GoNamed("watchdog", func() {
 				vsched.WaitFor("death", func() bool { return dead || cdone })
